@@ -20,7 +20,7 @@ RULE = ("case = (key, prefix, allow_unicode_keys, path); path in helper (check_k
         "248..252 from 1/2/3/4-byte UTF-8 characters; prefix lengths 0..250 crossing 250 at every split; str and "
         "bytes prefixes. Hypothesis: random keys/prefixes. Oracle: an independent predicate (encode, prepend, <=250 "
         "bytes, none of the 7 forbidden bytes); accepted => returned/transmitted key == prefix+encoded; rejected => "
-        "MemcacheIllegalInputError - also with ignore_exc=True on Client and HashClient, whose key check sits outside the handlers that turn failures into misses (PooledClient's read wrappers swallow every exception under ignore_exc by design, so that combination is not generated). Keys whose prefixed form is empty are excluded (C02 covers them). Non-trivial: "
+        "MemcacheIllegalInputError - also with ignore_exc=True on Client and HashClient, whose key check sits outside the handlers that turn failures into misses (PooledClient's read wrappers swallow every exception under ignore_exc by design, so that combination is not generated). The client's data `encoding` option (ascii/utf-8/latin-1) is varied as well: it must not influence which keys are legal. Keys whose prefixed form is empty are excluded (C02 covers them). Non-trivial: "
         "the key contains a forbidden or non-ASCII byte, or prefix+key is within 2 bytes of 250.")
 MANIFEST = {
     "category": "exploration",
@@ -64,9 +64,9 @@ def _nontrivial(key, prefix, au):
     return any(b in FORBIDDEN or b >= 0x80 for b in enc) or 248 <= n <= 252
 
 
-def _wire(kind, key, prefix, au, ignore_exc=False):
+def _wire(kind, key, prefix, au, ignore_exc=False, encoding="ascii"):
     env = Env()
-    c = env.client(kind, key_prefix=prefix, allow_unicode_keys=au, ignore_exc=ignore_exc)
+    c = env.client(kind, key_prefix=prefix, allow_unicode_keys=au, ignore_exc=ignore_exc, encoding=encoding)
     r = env.call(c.get, key)
     srv = env.server
     sent = any(e[3] == "sendall" for e in env.net.log)
@@ -74,23 +74,24 @@ def _wire(kind, key, prefix, au, ignore_exc=False):
 
 
 def check(case):
-    key, prefix, au, path = case
+    key, prefix, au, path = case[:4]
+    encoding = case[4] if len(case) > 4 else "ascii"       # the *data* encoding: must not change which keys are legal
     want = spec(key, prefix, au)
     bprefix = prefix.encode("ascii") if isinstance(prefix, str) else prefix
     enc_len_zero = (isinstance(key, (bytes, str)) and len(key) == 0 and len(bprefix) == 0)
     if enc_len_zero:
         return False, ["empty-excluded"]
     labels = [path, "accept" if want is not None else "reject"]
-    desc = "key=%r prefix=%r allow_unicode_keys=%r via %s" % (key if len(key) < 40 else (key[:20], "...", len(key)),
-                                                           prefix if len(prefix) < 40 else (prefix[:10], "...", len(prefix)), au, path)
+    desc = "key=%r prefix=%r allow_unicode_keys=%r encoding=%r via %s" % (key if len(key) < 40 else (key[:20], "...", len(key)),
+                                                           prefix if len(prefix) < 40 else (prefix[:10], "...", len(prefix)), au, encoding, path)
     if path in ("helper", "client", "pooled"):
         try:
             if path == "helper":
                 got = check_key_helper(key, au, bprefix)
             elif path == "client":
-                got = Client(("h", 1), allow_unicode_keys=au, key_prefix=prefix).check_key(key, bprefix)
+                got = Client(("h", 1), allow_unicode_keys=au, key_prefix=prefix, encoding=encoding).check_key(key, bprefix)
             else:
-                got = PooledClient(("h", 1), allow_unicode_keys=au, key_prefix=prefix).check_key(key)
+                got = PooledClient(("h", 1), allow_unicode_keys=au, key_prefix=prefix, encoding=encoding).check_key(key)
             exc = None
         except Exception as e:  # noqa: BLE001
             got, exc = None, e
@@ -108,7 +109,7 @@ def check(case):
         kind = {"wire-client": "client", "wire-pooled": "pooled", "wire-hash": "hash", "wire-hash-pooled": "hash-pooled",
                 "wire-client-ie": "client", "wire-hash-ie": "hash", "wire-hash-pooled-ie": "hash-pooled"}[path]
         try:
-            r, srv, sent, env = _wire(kind, key, prefix, au, ignore_exc=path.endswith("-ie"))
+            r, srv, sent, env = _wire(kind, key, prefix, au, ignore_exc=path.endswith("-ie"), encoding=encoding)
         except Exception as e:  # noqa: BLE001   constructor refused the configuration
             raise Violation(["constructor", path, type(e).__name__], "constructing the client raised %r: %s" % (e, desc))
         if want is None:
@@ -157,6 +158,14 @@ def full_alphabet_cases(tier, seed):
                 yield (kb, b"", au, path)
                 yield (chr(a), b"", au, path)
                 yield (kb, "pre", au, path)
+    # the data encoding option (utf-8 / latin-1) must not make non-ASCII str keys legal
+    for enc in ("utf-8", "latin-1"):
+        for cp in (0x61, 0x7F, 0x80, 0xE9, 0xFF, 0x100, 0x20AC, 0x20, 0x0A):
+            for au in (False, True):
+                for path in ("client", "pooled", "wire-client", "wire-pooled", "wire-hash", "wire-hash-pooled"):
+                    yield (chr(cp), b"", au, path, enc)
+                    yield ("k" + chr(cp) + "k", b"p:", au, path, enc)
+                    yield (bytes([cp & 0xFF]), b"", au, path, enc)
     for cp in EXTRA_CP:
         for au in (False, True):
             for path in _paths_cheap() + ["wire-client", "wire-hash"]:
@@ -230,7 +239,7 @@ def random_strategy(tier):
                        st.text(st.characters(min_codepoint=0x21, max_codepoint=0x7E), max_size=10))
     path = st.sampled_from(["helper", "client", "pooled", "wire-client", "wire-pooled", "wire-hash", "wire-hash-pooled",
                             "wire-client-ie", "wire-hash-ie", "wire-hash-pooled-ie"])
-    return st.tuples(st.one_of(skey, bkey, longk), prefix, st.booleans(), path)
+    return st.tuples(st.one_of(skey, bkey, longk), prefix, st.booleans(), path, st.sampled_from(["ascii", "ascii", "utf-8", "latin-1"]))
 
 
 PARTS = [
